@@ -1431,9 +1431,12 @@ class TransferManager(BaseManager):
                     reason = FailReason.CANCELLED
                 elif current_state == TransferState.COMPLETE:
                     reason = FailReason.COMPLETE
-                elif transfer.is_processing():
+                elif transfer.is_processing() or transfer._state_lock.locked():
                     # Needs investigation, currently don't do anything when the
-                    # transfer is already being processed
+                    # transfer is already being processed. The same goes for a
+                    # transfer whose state is being changed (abort, pause, ...):
+                    # a task created now would escape the cancellation done by
+                    # that state change
                     return
                 else:
                     # All good to download
